@@ -156,15 +156,13 @@ Theorem C16_yield_progress : forall ord, set_order ord -> forall ops n, history 
   ready (run ord (ops ++ repeat Yield n)) = [] /\ coherent (run ord (ops ++ repeat Yield n)).
 Proof. exact yield_progress_thm. Qed.
 
-(* ... in particular N+2 turns suffice when every re-prepare task belongs to a
-   resource with index < N.  (PARTIAL in one respect: that the task keys are
-   bounded by the keys offered in the history is left as a hypothesis here; it
-   holds because tasks are only created by Offer for the offered key.) *)
-Theorem C16_yield_progress_keys_partial : forall ord, set_order ord -> forall ops N, history ops ->
-  (forall tid, t_key (tasks (run ord ops) tid) < N) ->
+(* ... in closed form: if the history only offers resources with index < N,
+   N+2 turns after the last Offer/Delete are always enough *)
+Theorem C16_yield_progress_N : forall ord, set_order ord -> forall ops N, 0 < N -> history ops ->
+  Forall (op_below N) ops ->
   ready (run ord (ops ++ repeat Yield (N + 2))) = [] /\
   coherent (run ord (ops ++ repeat Yield (N + 2))).
-Proof. exact yield_progress_keys_thm. Qed.
+Proof. exact yield_progress_N_thm. Qed.
 
 (* non-vacuity of the bound: a chain 0 -> 1 -> 2 whose bottom changes needs
    several turns; the bound (5) is not far off *)
@@ -184,4 +182,4 @@ Print Assumptions C16_seen_covers_deps.
 Print Assumptions C16_idle_coherent.
 Print Assumptions C16_quiescent_coherent.
 Print Assumptions C16_yield_progress.
-Print Assumptions C16_yield_progress_keys_partial.
+Print Assumptions C16_yield_progress_N.
